@@ -1144,6 +1144,10 @@ pub fn run(ctx: &Ctx) -> ! {
             }
         }
     }
+    if ctx.has_flag("--reverse-items") {
+        // developer aid: run the work list back to front (to exercise the tail under a small budget)
+        items.reverse();
+    }
     let n_items = items.len() as u64;
     let states_total = AtomicUsize::new(0);
     let ratio_max = Mutex::new(0f64);
